@@ -341,16 +341,20 @@ impl<T: Qcow2IoOps> Qcow2Dev<T> {
                 crate::verif::probe("cow:flush-refcount");
                 self.flush_refcount().await?;
 
+                // If the cluster holding this slice is a new one that has not
+                // been zeroed yet, flushing any slice of it will zero the whole
+                // cluster first and wipe what is written here: keep the slice
+                // dirty so that this flush writes it again.  Look before the
+                // write as well: the zeroing may be in flight right now, on
+                // behalf of another task, and land after this write.
+                let l2_cluster = l2_table.get_offset().unwrap() >> info.cluster_bits();
+                let was_new = self.cluster_is_new(l2_cluster).await;
+
                 // flush mapping table in-place update
                 self.flush_table(&*l2_table, 0, l2_table.byte_size())
                     .await?;
 
-                // If the cluster holding this slice is a new one that has not
-                // been zeroed yet, flushing any slice of it will zero the whole
-                // cluster first and wipe what was just written: keep the slice
-                // dirty so that this flush writes it again.
-                let l2_cluster = l2_table.get_offset().unwrap() >> info.cluster_bits();
-                if !self.cluster_is_new(l2_cluster).await {
+                if !was_new && !self.cluster_is_new(l2_cluster).await {
                     l2_handle.set_dirty(false);
                 }
 
